@@ -858,6 +858,10 @@ thread_local! {
 }
 
 pub fn set_lock_probe(p: Option<Box<dyn Fn() -> bool>>) {
+    // the old probe holds a pool handle: it is dropped outside the borrow (a
+    // pool whose drop calls the manager would otherwise re-enter this cell)
+    let old = LOCK_PROBE.with(|c| c.borrow_mut().take());
+    drop(old);
     LOCK_PROBE.with(|c| *c.borrow_mut() = p);
 }
 
@@ -1025,8 +1029,11 @@ impl Manager for Mgr {
         let _ = try_w(|w| {
             // "the pool invokes the manager ... only from inside get(), retain(),
             // take(), resize(), close() or the return of an object"
-            if !w.ops.contains_key(&who) {
-                w.violate(&["C08"], "detach-outside-operation", format!("Manager::detach(object {}) invoked while caller {} was in no pool operation", id, who));
+            match w.ops.get(&who).map(|o| o.0) {
+                None => w.violate(&["C08"], "detach-outside-operation", format!("Manager::detach(object {}) invoked while caller {} was in no pool operation", id, who)),
+                // dropping a pool handle is not among the listed operations
+                Some(OpKind::DropPool) => w.violate(&["C08"], "detach-outside-operation", format!("Manager::detach(object {}) invoked from the drop of a pool handle", id)),
+                _ => {}
             }
             w.objs[id].detach += 1;
             if w.objs[id].detach > 1 {
